@@ -100,7 +100,7 @@ def check(ctx):
         return C.finish(ctx, trusted=C.TRUSTED_COMMON)
     corpus = C.load_corpus("C19")
     cases, nexh = gen_cases(ctx)
-    cases = corpus + cases
+    cases = C.uniq(corpus + cases)
     ctx.log(f"{len(cases)} histories ({nexh} bounded-exhaustive)")
     impl = C.run_impl(ctx, "symtab", cases)
     have_model = ctx.lake_ok
